@@ -131,6 +131,14 @@ FAULTS += [
     (T.R_ARG_KIND, "cmp", ["call", "length", [["call", "match", [A, ["lit", "a"]]]]]),
     (T.R_ARG_KIND, "log", ["call", "match", [NONSING[0], ["lit", "a"]]]),
     (T.R_ARG_KIND, "log", ["call", "search", [A, NONSING[2]]]),
+    (T.R_ARG_KIND, "cmp", ["call", "length", [["par", ["test", A]]]]),
+    (T.R_ARG_KIND, "cmp", ["call", "count", [["par", ["test", NONSING[0]]]]]),
+    (T.R_ARG_KIND, "cmp", ["call", "value", [["par", ["test", A]]]]),
+    (T.R_ARG_KIND, "log", ["call", "match", [["par", ["test", A]], ["lit", "x"]]]),
+    (T.R_ARG_KIND, "cmp", ["call", "length", [["call", "value", [["par", ["test", A]]]]]]),
+    (T.R_ARG_KIND, "cmp", ["call", "length", [["not", ["test", A]]]]),
+    (T.R_ARG_KIND, "cmp", ["call", "length", [["cmp", "==", A, ["lit", 1]]]]),
+    (T.R_ARG_KIND, "cmp", ["call", "count", [["and", ["test", A], ["test", B]]]]),
     (T.R_UNKNOWN_FN, "log", ["call", "foo", [A]]),
     (T.R_UNKNOWN_FN, "cmp", ["call", "bar", [A]]),
     (T.R_LITERAL_TEST, "log", ["lit", True]),
@@ -286,7 +294,10 @@ def make_env(lo, hi):
     return E()
 
 
-CONFIGS = [("default", -(2**53) + 1, 2**53 - 1), ("pm100", -100, 100), ("pm1", -1, 1), ("asym", -5, 3)]
+CONFIGS = [("default", -(2**53) + 1, 2**53 - 1), ("pm100", -100, 100), ("pm1", -1, 1), ("asym", -5, 3),
+           # limits whose decimal spellings differ in length, either way round; one-sided and zero-width ranges
+           ("lo-longer", -1000, 100), ("lo-longer-1", -10, 9), ("hi-longer", -9, 10), ("hi-longer-3", -7, 12345), ("nonneg", 0, 50),
+           ("nonpos", -50, 0), ("zero", 0, 0), ("pow10", -100000, 99999)]
 
 
 def t_ranges():
@@ -296,8 +307,9 @@ def t_ranges():
         env = jsonpath.DEFAULT_ENV if name == "default" else make_env(lo, hi)
         for v in (lo - 1, lo, lo + 1, hi - 1, hi, hi + 1, 0):
             inside = lo <= v <= hi
+            one = 1 if lo <= 1 <= hi else 0  # the constant step next to the probed bound must itself be in range
             shapes = ["$[%d]" % v, "$.a[%d]" % v, "$..[%d]" % v, "$[0,%d]" % v, "$[%d:]" % v, "$[:%d]" % v, "$[::%d]" % v,
-                      "$[0:%d:1]" % v, "$[?@[%d]]" % v, "$[?@.a[%d] == 1]" % v, "$[?$[%d:]]" % v, "$[?count(@[::%d]) > 1]" % v,
+                      "$[0:%d:%d]" % (v, one), "$[?@[%d]]" % v, "$[?@.a[%d] == 1]" % v, "$[?$[%d:]]" % v, "$[?count(@[::%d]) > 1]" % v,
                       "$[ %d ]" % v, "$['a',%d]" % v]
             for text in shapes:
                 case = {"text": text, "config": name, "expect": "valid" if inside else "invalid", "rule": "integer-range"}
@@ -318,7 +330,7 @@ def t_ranges():
         expect_invalid(stats, text, jsonpath.DEFAULT_ENV, {"text": text, "expect": "invalid", "rule": "list-shape"}, "list-shape")
         stats.nt("shape", text)
         n += 1
-    stats.subspaces.append({"name": "index/slice bounds at limit-1, limit, limit+1 x 14 shapes x 4 configurations; leading zeros; list shapes",
+    stats.subspaces.append({"name": "index/slice bounds at limit-1, limit, limit+1 x 14 shapes x %d configurations; leading zeros; list shapes" % len(CONFIGS),
                             "size": n, "exhaustive": True})
     return stats
 
